@@ -169,11 +169,16 @@ func encodeTask(box int, tier string, deadline time.Time, sts []taskState) []byt
 	return w.b
 }
 
-type succRec struct {
-	ev    Event
-	hash  uint64
-	cost  uint8
-	flags uint32
+// rec is one executed transition reported by a worker. parent >= 0 refers to an earlier
+// record of the same result (a state the worker walked through in place), parent < 0 to the
+// task state number -(parent+1).
+type rec struct {
+	parent   int32
+	ev       Event
+	hash     uint64
+	cost     uint8
+	flags    uint32
+	expanded bool // the worker already produced this state's successors (chain state)
 }
 
 type workerViol struct {
@@ -183,10 +188,9 @@ type workerViol struct {
 	Func   string
 }
 
-type expandRes struct {
+type stateRes struct {
 	id     uint32
 	status uint8 // 0 expanded, 1 skipped (deadline / abort), 2 replay mismatch
-	succs  []succRec
 	trans  uint32
 }
 
@@ -219,12 +223,44 @@ func boxesFor(tier string) []*Box {
 
 var gcOnce sync.Once
 
+// chainSeen: hashes of the states this worker process has already walked through in place
+// (an optimisation only — the coordinator's visited set is authoritative).
+var chainSeen = map[uint64]struct{}{}
+
+type expander struct {
+	box           *Box
+	sim           *sim
+	deadline      time.Time
+	abort         string
+	recs          []rec
+	viols         []workerViol
+	validateEvery int
+	expanded      int
+	validated     int
+}
+
+// one memo per worker process and box
+var (
+	workerSim    *sim
+	workerSimBox = -1
+	workerCount  int
+	workerValid  int
+)
+
+func (x *expander) stop() bool {
+	if time.Now().After(x.deadline) {
+		return true
+	}
+	_, err := os.Stat(x.abort)
+	return err == nil
+}
+
 func worker(tb []byte, progress func()) []byte {
 	// the live heap of a worker is a few MB while it allocates GBs of short-lived RawNodes:
 	// collect by memory limit instead of by growth ratio
 	gcOnce.Do(func() {
 		debug.SetGCPercent(-1)
-		debug.SetMemoryLimit(512 << 20)
+		debug.SetMemoryLimit(1 << 30)
 	})
 	r := &rd{b: tb}
 	boxIdx := int(r.u8())
@@ -232,13 +268,16 @@ func worker(tb []byte, progress func()) []byte {
 	if r.u8() == 1 {
 		tier = "thorough"
 	}
-	box := boxesFor(tier)[boxIdx]
-	deadline := time.Unix(0, int64(r.u64()))
+	if workerSimBox != boxIdx {
+		workerSim, workerSimBox = newSim(true), boxIdx
+		chainSeen = map[uint64]struct{}{}
+	}
+	x := &expander{box: boxesFor(tier)[boxIdx], sim: workerSim, abort: abortFile(), validateEvery: 64, expanded: workerCount}
+	x.deadline = time.Unix(0, int64(r.u64()))
+	before := *workerSim
 	n := int(r.u32())
 	w := &wr{}
 	w.u32(uint32(n))
-	var viols []workerViol
-	af := abortFile()
 	for i := 0; i < n; i++ {
 		progress()
 		var s taskState
@@ -250,42 +289,51 @@ func worker(tb []byte, progress func()) []byte {
 		for j := range s.path {
 			s.path[j] = r.ev()
 		}
-		skip := time.Now().After(deadline)
-		if !skip {
-			if _, err := os.Stat(af); err == nil {
-				skip = true
-			}
+		res := stateRes{id: s.id, status: stSkipped}
+		if !x.stop() {
+			res = x.expand(&s, int32(-(i + 1)), progress)
 		}
-		if skip {
-			w.u32(s.id)
-			w.u8(stSkipped)
-			w.u32(0)
-			w.u16(0)
-			continue
-		}
-		res := expand(box, &s, &viols)
 		w.u32(res.id)
 		w.u8(res.status)
 		w.u32(res.trans)
-		w.u16(uint16(len(res.succs)))
-		for _, sc := range res.succs {
-			w.ev(sc.ev)
-			w.u64(sc.hash)
-			w.u8(sc.cost)
-			w.u32(sc.flags)
+	}
+	w.u32(uint32(len(x.recs)))
+	for i := range x.recs {
+		rc := &x.recs[i]
+		w.u32(uint32(rc.parent))
+		w.ev(rc.ev)
+		w.u64(rc.hash)
+		w.u8(rc.cost)
+		w.u32(rc.flags)
+		if rc.expanded {
+			w.u8(1)
+		} else {
+			w.u8(0)
 		}
 	}
-	vb, _ := json.Marshal(viols)
+	workerCount = x.expanded
+	w.u32(uint32(workerSim.Execs - before.Execs))
+	w.u32(uint32(workerSim.Hits - before.Hits))
+	w.u32(uint32(workerSim.Thaws - before.Thaws))
+	w.u32(uint32(workerSim.ThawFeeds - before.ThawFeeds))
+	w.u32(uint32(x.validated))
+	vb, _ := json.Marshal(x.viols)
 	w.u32(uint32(len(vb)))
 	w.b = append(w.b, vb...)
 	return w.b
 }
 
-func expand(box *Box, s *taskState, viols *[]workerViol) expandRes {
-	res := expandRes{id: s.id}
-	c := newCluster(&box.Cfg, &box.Bud, box.Mode == "B")
+// expand re-executes the path of a state on fresh nodes and produces its successors. Every
+// alternative is executed on a fork (touched node rebuilt from its own input history); in
+// Box B a state with a single free continuation (deliver the oldest message) is then advanced
+// in place and expanded in turn, so a FIFO run between two quiescent points costs one replay.
+func (x *expander) expand(s *taskState, ref int32, progress func()) stateRes {
+	box := x.box
+	res := stateRes{id: s.id}
+	c := newCluster(x.sim, &box.Cfg, &box.Bud, box.Mode == "B")
 	for i, e := range s.path {
-		if !c.apply(e) || len(c.viol) > 0 {
+		c = c.step(e)
+		if c == nil || len(c.viol) > 0 {
 			res.status = stMismatch
 			fmt.Fprintf(os.Stderr, "raftmc: replay of a stored path diverged at step %d (%v)\n", i, e)
 			return res
@@ -297,50 +345,108 @@ func expand(box *Box, s *taskState, viols *[]workerViol) expandRes {
 		fmt.Fprintf(os.Stderr, "raftmc: replayed state hash %x differs from the recorded %x\n", h, s.hash)
 		return res
 	}
-	if len(s.path) >= box.Depth {
-		return res
-	}
-	for _, cd := range box.candidates(c, int(s.dev)) {
-		d := c.fork(c.target(cd.ev))
-		if !d.apply(cd.ev) {
-			continue
+	x.expanded++
+	if x.validateEvery > 0 && x.expanded%x.validateEvery == 0 {
+		// independent re-execution: fresh RawNodes, no memo, one event after the other
+		r := runPath(&box.Cfg, &box.Bud, box.Mode == "B", s.path)
+		x.validated++
+		if r.err != "" || r.failAt >= 0 || r.hash != h {
+			res.status = stMismatch
+			fmt.Fprintf(os.Stderr, "raftmc: straight-line replay of a state disagrees with the memoised execution (%s)\n", r.err)
+			return res
 		}
-		res.trans++
-		if len(d.viol) > 0 {
-			for _, v := range d.viol {
-				*viols = append(*viols, workerViol{Path: append(append([]Event(nil), s.path...), cd.ev), Kind: v.Kind, Detail: v.Detail, Func: v.Func})
+	}
+	path := append([]Event(nil), s.path...)
+	dev := int(s.dev)
+	for steps := 0; ; steps++ {
+		if len(path) >= box.Depth {
+			return res
+		}
+		if ref >= 0 {
+			x.recs[ref].expanded = true
+		}
+		cands := box.candidates(c, dev)
+		nfree := 0
+		var free cand
+		for _, cd := range cands {
+			if cd.cost == 0 {
+				nfree++
+				free = cd
 			}
-			continue // poisoned: not expanded
 		}
-		h2, body2 := d.key()
-		if bytes.Equal(body, body2) {
-			continue // nothing but a budget counter changed: dominated by the parent
+		inPlace := box.Mode == "B" && nfree == 1 && len(c.pool) > 0
+		var next *cluster
+		var nextRef int32
+		for _, cd := range cands {
+			d := c.step(cd.ev)
+			if d == nil {
+				continue
+			}
+			res.trans++
+			if len(d.viol) > 0 {
+				for _, v := range d.viol {
+					x.viols = append(x.viols, workerViol{Path: append(append([]Event(nil), path...), cd.ev), Kind: v.Kind, Detail: v.Detail, Func: v.Func})
+				}
+				continue // poisoned: not expanded
+			}
+			h2, body2 := d.key()
+			if bytes.Equal(body, body2) {
+				continue // nothing but a budget counter changed: dominated by the parent
+			}
+			x.recs = append(x.recs, rec{parent: ref, ev: cd.ev, hash: h2, cost: cd.cost, flags: d.flags})
+			if inPlace && cd.cost == 0 {
+				next, h, body = d, h2, body2
+				nextRef = int32(len(x.recs) - 1)
+			}
 		}
-		res.succs = append(res.succs, succRec{ev: cd.ev, hash: h2, cost: cd.cost, flags: d.flags})
+		if !inPlace || next == nil {
+			return res
+		}
+		// continue along the single free continuation without going back to the coordinator
+		c = next
+		path = append(path, free.ev)
+		ref = nextRef
+		if _, ok := chainSeen[h]; ok {
+			return res
+		}
+		if len(chainSeen) < 8<<20 {
+			chainSeen[h] = struct{}{}
+		}
+		if steps%8 == 7 {
+			progress()
+			if x.stop() {
+				return res
+			}
+		}
 	}
-	return res
 }
 
-func decodeResult(out []byte) ([]expandRes, []workerViol) {
+type simStats struct{ Execs, Hits, Thaws, ThawFeeds, Validated int }
+
+func decodeResult(out []byte) ([]stateRes, []rec, []workerViol, simStats) {
 	r := &rd{b: out}
 	n := int(r.u32())
-	res := make([]expandRes, n)
+	res := make([]stateRes, n)
 	for i := range res {
 		res[i].id = r.u32()
 		res[i].status = r.u8()
 		res[i].trans = r.u32()
-		ns := int(r.u16())
-		res[i].succs = make([]succRec, ns)
-		for j := range res[i].succs {
-			sc := &res[i].succs[j]
-			sc.ev = r.ev()
-			sc.hash = r.u64()
-			sc.cost = r.u8()
-			sc.flags = r.u32()
-		}
 	}
+	nr := int(r.u32())
+	recs := make([]rec, nr)
+	for i := range recs {
+		rc := &recs[i]
+		rc.parent = int32(r.u32())
+		rc.ev = r.ev()
+		rc.hash = r.u64()
+		rc.cost = r.u8()
+		rc.flags = r.u32()
+		rc.expanded = r.u8() == 1
+	}
+	var ss simStats
+	ss.Execs, ss.Hits, ss.Thaws, ss.ThawFeeds, ss.Validated = int(r.u32()), int(r.u32()), int(r.u32()), int(r.u32()), int(r.u32())
 	vl := int(r.u32())
 	var viols []workerViol
 	json.Unmarshal(r.b[r.p:r.p+vl], &viols)
-	return res, viols
+	return res, recs, viols, ss
 }
